@@ -282,6 +282,14 @@ func (n *normalizer) run() map[string]normFile {
 	n.namesIn = map[*ast.FuncDecl]map[string]bool{}
 	n.back = map[ast.Node]ast.Node{}
 	n.findCycles()
+	// analyses that the rewriting consults (field-write summaries on SSA, per-function assignment tables) are built now,
+	// on the untouched trees: once statements have been moved, cloned nodes carry no type information
+	if len(n.newFns) > 0 {
+		n.w.SSA()
+		for _, f := range n.newFns {
+			n.w.ent(f)
+		}
+	}
 	progress := false
 	for _, pkg := range n.w.Pkgs {
 		for _, file := range pkg.Syntax {
